@@ -526,11 +526,30 @@ static void gather_scatter_convert(Rng& rng)
         for (int pattern = 0; pattern < 5; ++pattern)
         {
             U* tab = where ? (U*)(AR.hi() - M * sizeof(U)) : (U*)AR.lo();
+            // pairwise distinct also after conversion.  Floating sources carry a fraction (and, for double, bits a float cannot
+            // hold) and both signs: the conversion must be the library's usual one, static_cast<lane type>(element), i.e.
+            // truncation toward zero for float -> integer, on every architecture
             for (size_t k = 0; k < M; ++k)
-                loc[k] = (U)(int)(1000 + 3 * k); // exactly representable in every type involved, pairwise distinct
+            {
+                double v = (double)(1000 + 3 * k);
+                if (std::is_floating_point<U>::value)
+                {
+                    v += (double)(k % 4) * 0.25 + (sizeof(U) == 8 ? 1e-9 * (double)(k + 1) : 0.0);
+                    if ((k & 1) && std::is_signed<T>::value)
+                        v = -v;
+                }
+                loc[k] = (U)v;
+            }
             for (size_t i = 0; i < N; ++i)
             {
-                src[i] = (T)(int)(50 + 7 * i);
+                double w = (double)(50 + 7 * i);
+                if (std::is_floating_point<T>::value)
+                {
+                    w += (double)(i % 4) * 0.25 + (sizeof(T) == 8 ? 1e-9 * (double)(i + 1) : 0.0);
+                    if ((i & 1) && std::is_signed<U>::value)
+                        w = -w;
+                }
+                src[i] = (T)w;
                 idx[i] = pattern == 0 ? (IT)(rng.next() % M) : pattern == 1 ? (IT)((i * 7 + 3) % M) : pattern == 2 ? (IT)(M - 1 - i) : pattern == 3 ? (IT)(2 * i + 1 < M ? 2 * i + 1 : i) : (IT)i;
             }
             std::string wit = std::string("\"table\":\"") + (where ? "flush_upper_guard" : "flush_lower_guard") + "\",\"index\":" + hexarr(idx, N);
@@ -547,7 +566,7 @@ static void gather_scatter_convert(Rng& rng)
                     for (size_t i = 0; i < N; ++i)
                         if (!(o[i] == (T)loc[(size_t)idx[i]]))
                         {
-                            viol(sg, "lane_mismatch", "{" + wit + ",\"lane\":" + std::to_string(i) + ",\"got\":\"" + hexv(o[i]) + "\",\"expected_element\":" + std::to_string((size_t)idx[i]) + "}");
+                            viol(sg, "lane_mismatch", "{" + wit + ",\"lane\":" + std::to_string(i) + ",\"got\":\"" + hexv(o[i]) + "\",\"expected_element\":" + std::to_string((size_t)idx[i]) + ",\"element_value\":" + std::to_string((double)loc[(size_t)idx[i]]) + ",\"expected\":\"" + hexv((T)loc[(size_t)idx[i]]) + "\"}");
                             break;
                         }
             }
